@@ -21,6 +21,24 @@ class _Ref(ast.NodeTransformer):
         return node
 
 
+class _RefKeep(ast.NodeTransformer):
+    "reference rewrite that also converts operator calls carrying keyword arguments, keeping the keywords"
+
+    def visit_Call(self, node):
+        self.generic_visit(node)
+        if isinstance(node.func, ast.Attribute) and node.func.attr in OPS:
+            return ast.Call(ast.Name(node.func.attr, ast.Load()), [node.func.value] + list(node.args), list(node.keywords))
+        return node
+
+
+KEYWORD_CASES = [
+    "seq.Select(f=lambda e: e.a)", "seq.Select(lambda e: e.a, k=1)", "seq.Count(x=1)", "seq.Where(filter=lambda e: e.a > 1).Count()",
+    "ds.Select(lambda e: e.jets.Where(f=lambda j: j.pt > 1).Count())", "seq.Aggregate(0, func=lambda a, v: a + v)",
+    "seq.First(default=0).pt", "f(k=seq.Select(g=lambda e: e.a))", "seq.Select(lambda e: e.a, **opts)", "seq.Select(*fs)",
+    "seq.ResultTTree(['c'], treename='t', filename='f.root')", "seq.Select(lambda e: e.jets.Count(min=1), n=seq.Count())",
+]
+
+
 def method_ops_left(a):
     return [n.func.attr for n in ast.walk(a)
             if isinstance(n, ast.Call) and isinstance(n.func, ast.Attribute) and n.func.attr in OPS]
@@ -59,6 +77,9 @@ class C17(Check):
                                         "starred, subscripts, slices, dict keys and values, operands, conditionals, lambda defaults, "
                                         "comprehension parts, f-strings, walrus, callee)", "positions": len(POSITIONS)},
                          _position_cases, runner="run_struct"))
+        out.append(Space("keyword-calls", {"cases": len(KEYWORD_CASES), "oracle": "an operator call that carries keyword / ** / * arguments is either "
+                                           "left as it is or converted with EVERY argument kept; nothing may be lost; a second application changes nothing"},
+                         KEYWORD_CASES, runner="run_kw"))
         out.append(Space("shared-nodes", {"generator": "trees in which one node object is referenced from several places"},
                          (lambda: list(range(N_SHARED))), runner="run_shared"))
         out.append(Space("name-list histories", {"lists": NAME_LISTS, "histories": "every ordered pair (L1, L2): convert with L1, "
@@ -152,6 +173,25 @@ class C17(Check):
                     self._structural(canon, q, res, canon)
                     c.func.attr = old
             res["oc"].append("decoys")
+        return res
+
+    def run_kw(self, src):
+        res = {"n": 1, "nt": [src], "oc": ["kw"], "tags": {}, "viol": []}
+        q = qsem.parse_expr(src)
+        try:
+            r = self._transform(copy.deepcopy(q))
+        except Exception as e:
+            res["viol"].append({"kind": f"raised:{type(e).__name__}", "canon": src, "msg": str(e)[:200]})
+            return res
+        keep = ast.dump(_RefKeep().visit(copy.deepcopy(q)))
+        leave = ast.dump(_Ref().visit(copy.deepcopy(q)))
+        if ast.dump(r) not in (keep, leave):
+            res["viol"].append({"kind": "arguments-lost-or-changed", "canon": src,
+                                "msg": f"got {ast.unparse(r)[:200]}; either {ast.unparse(ast.parse(src))[:100]} converted with all its arguments or left alone"})
+            return res
+        r2 = self._transform(copy.deepcopy(r))
+        if ast.dump(r2) != ast.dump(r):
+            res["viol"].append({"kind": "not-idempotent", "canon": src, "msg": ast.unparse(r2)[:200]})
         return res
 
     def run_shared(self, k):
